@@ -46,9 +46,75 @@ def cross_cond(rng, doc):
         return L("items_contain", "none", [], {"a": p})                             # var-keyword
     if r < 0.92:
         return L("equal_to", "none", [{"a": p}])                                    # nested in a mapping argument
-    if r < 0.96:
+    if r < 0.94:
         return L("equal_to", "length", [p])
+    if r < 0.97:
+        # a LITERAL mapping whose key looks like a path spec (written with the escaped key in specs)
+        return L(rng.choice(["equal_to", "not_equal_to", "in_"]), "none",
+                 [rng.choice([{"path": ["a"]}, {"path.length": ["a", 0], "b": 1}, {"a": {"path": [1]}}])])
     return ("and", L("equal_to", "none", [p]), L("less_than", "none", [path_arg(rng, doc)]))
+
+
+def directed(rng, doc, rr):
+    """make the comparison meaningful: put, at a fresh node the rule selects, the value the condition's argument
+    has AFTER substitution (or a member of it), so that resolving / not resolving a path argument changes the verdict"""
+    t = rr["cond"]
+    if t[0] != "leaf" or t[1]["fn"] not in ("equal_to", "not_equal_to", "in_", "not_in", "keys_contain", "required_keys", "items_contain"):
+        return doc, rr
+    try:
+        lit = literal_of({"rparts": [], "cond": t, "cast": None}, doc)["cond"][1]
+    except Exception:
+        return doc, rr
+    arg = (lit["actuals"] or list(lit["akw"].values()) or [None])[0]
+    fn = t[1]["fn"]
+    if fn in ("in_", "not_in"):
+        if isinstance(arg, (list, tuple)) and arg:
+            node = rng.choice(list(arg))
+        elif isinstance(arg, dict) and arg:
+            node = rng.choice(list(arg))
+        else:
+            return doc, rr
+    elif fn in ("keys_contain", "required_keys"):
+        ks = lit["actuals"]
+        try:
+            node = {k: 1 for k in ks}
+        except TypeError:
+            return doc, rr
+    elif fn == "items_contain":
+        node = dict(lit["akw"])
+    else:
+        node = arg
+    import copy
+    node = copy.deepcopy(node)
+    if isinstance(doc, dict):
+        doc = dict(doc)
+        doc["t"] = node
+        return doc, dict(rr, rparts=[("prim", "t")])
+    doc = list(doc) + [node]
+    return doc, dict(rr, rparts=[("prim", len(doc) - 1)])
+
+
+def spec_expressible(rr):
+    """the rule can be written as a spec: JSON-able arguments only (path arguments at the depths from_spec inspects)"""
+    import json
+
+    def ok_val(v, depth=0):
+        if isinstance(v, PathArg):
+            return depth <= 1 and all(isinstance(p, tuple) for p in v.rparts)
+        if isinstance(v, dict):
+            return all(isinstance(k, str) for k in v) and all(ok_val(x, depth + 1) for x in v.values())
+        if isinstance(v, list):
+            return all(ok_val(x, depth + 1) for x in v)
+        return v is None or isinstance(v, (bool, int, float, str))
+
+    def ok_tree(t):
+        if t[0] == "leaf":
+            return all(ok_val(a) for a in t[1]["actuals"]) and all(ok_val(a) for a in t[1]["akw"].values())
+        if t[0] == "null":
+            return True
+        return ok_tree(t[1]) and ok_tree(t[2])
+
+    return all(isinstance(p, tuple) for p in rr["rparts"]) and ok_tree(rr["cond"])
 
 
 def literal_of(rr, doc):
@@ -72,14 +138,20 @@ def run(rep, tier, seed):
     for s in range(2500 if tier == "quick" else 80000):
         doc = gen.document(rng, depth=rng.choice([2, 3, 3]), strish=0.75)
         rr = {"rparts": gen.path_recipe(rng, doc, maxlen=2), "cond": cross_cond(rng, doc), "cast": None}
+        if rng.random() < 0.45:
+            doc, rr = directed(rng, doc, rr)
         try:
             try:
                 lit = literal_of(rr, doc)
             except Exception:
                 lit = None
-            e = ruledrv.ruletest_event(len(events) + 1, rr, doc, "raw", lit)
+            spec = None
+            if rng.random() < 0.35 and spec_expressible(rr):
+                from harness.props import grammardrv as gd
+                spec = gd.spell_rule(rng, rr)         # path arguments as path specs, literal path-like keys escaped
+            e = ruledrv.ruletest_event(len(events) + 1, rr, doc, "raw", lit, spec=spec)
             rec = {"op": "ruletest", "rule": ruledrv.lit_rule(rr), "doc": to_lit(doc), "entry": "raw",
-                   "lit": ruledrv.lit_rule(lit) if lit else None}
+                   "lit": ruledrv.lit_rule(lit) if lit else None, "via_spec": spec is not None}
         except Unencodable:
             rep.skipped_unencodable += 1
             continue
